@@ -204,6 +204,10 @@ Definition gone_key (s : sys) (T k : N) : bool :=
   | Committed _ => false
   end.
 
+(* CheckSecondaryLocks stops at the first key that is not locked: only that key gets the rollback marker *)
+Definition first_gone (s : sys) (T : N) (ks : list N) : list N :=
+  match find (gone_key s T) ks with Some k => [k] | None => [] end.
+
 (* ---------------- matching of sends / delivers ---------------- *)
 Definition sent_by (s : sys) (p : event -> bool) : bool := existsb p (s_sent s).
 Definition delivered (s : sys) (e : event) : bool := existsb (reply_eqb e) (s_dlv s).
@@ -435,7 +439,7 @@ Definition step_csl_deliver (s : sys) (r T : N) (ks : list N) (st : csl_st) : re
   | CslCommit C =>
       if C =? 0 then
         chk (existsb (gone_key s T) ks) else S_csl_commit;
-        match step_keys s1 T ks tr_csl_rb with Some s' => Ok s' | None => Rej S_csl_locks end
+        match step_keys s1 T (first_gone s T ks) tr_csl_rb with Some s' => Ok s' | None => Rej S_csl_locks end
       else
         chk (existsb (fun k => match kget s T k with
                                | Committed c' => c' =? C
